@@ -1,7 +1,8 @@
 (* C13 — Values survive their stored text and JSON forms.  Statements only; proofs are in proofs/.
-   Models: model/NumText.v (numbers: XNumber.Render = decimal.String, ToXNumber on text, the "=" operator). *)
+   Models: model/NumText.v (numbers: XNumber.Render = decimal.String, ToXNumber on text, the "=" operator),
+   model/Civil.v + model/DateText.v (datetimes, dates, times: Render, Format(env), ToXDateTime/ToXDate/ToXTime). *)
 From Coq Require Import ZArith NArith List Bool.
-From Verif Require Import lib.Dec model.NumText proofs.NumTextProofs.
+From Verif Require Import lib.Dec model.NumText model.Civil model.DateText proofs.NumTextProofs proofs.CivilProofs proofs.DateTextProofs.
 Import ListNotations.
 
 (* Every number renders to text that converts back to the same number.  For ALL decimals mant * 10^dexp of the
@@ -33,3 +34,109 @@ Print Assumptions c13_equal_agrees.
 Theorem c13_equal_is_numeric : forall a b : dec, equal_num a b = dec_eqb a b.
 Proof. exact equal_num_spec. Qed.
 Print Assumptions c13_equal_is_numeric.
+
+(* ================================================================================================ *)
+(* datetimes, dates, times.  An instant is a number of nanoseconds since the unix epoch; a time zone is ANY function
+   [offset] from unix seconds to the UTC offset (seconds) in force (universally quantified: no zone data is assumed).
+   Years: 0..9999 in the zone the text is written in (the property speaks of 1..9999). *)
+Open Scope Z_scope.
+
+(* calendar arithmetic (time.Date / Time.Date()): day numbers and valid dates correspond one to one, all years *)
+Theorem c13_civil_inverse :
+  (forall y m d, valid_date y m d = true -> civil_from_days (days_from_civil y m d) = (y, m, d))
+  /\ (forall z, let '(y, m, d) := civil_from_days z in days_from_civil y m d = z /\ valid_date y m d = true).
+Proof. exact (conj civil_from_days_from_civil days_from_civil_from_days). Qed.
+Print Assumptions c13_civil_inverse.
+
+(* ISO form, exact statement: the rendering of ANY instant in ANY zone is accepted by ToXDateTime in ANY environment
+   and yields the instant truncated to microseconds (the rendered precision) plus the seconds of the zone offset,
+   which "Z07:00" does not write (0 for every zone whose offset is in whole minutes) *)
+Theorem c13_iso_roundtrip_general : forall (offset offset' : Z -> Z) (e : env) (t : Z),
+  in_year_range (f_year (fields_of offset t)) -> -86400 < offset (unix_of t) < 86400 ->
+  datetime_from_string offset' e (iso offset t)
+  = Some (t - t mod 1000 + (offset (unix_of t) - 60 * Z.quot (offset (unix_of t)) 60) * giga).
+Proof. exact iso_roundtrip_general. Qed.
+Print Assumptions c13_iso_roundtrip_general.
+
+(* partial: the round trip proper needs the zone offset at the instant to be in whole minutes
+   (missing for the full statement: zones in their local-mean-time era, see c13_iso_roundtrip_refuted) *)
+Theorem c13_iso_roundtrip_partial : forall (offset offset' : Z -> Z) (e : env) (t : Z),
+  in_year_range (f_year (fields_of offset t)) -> -86400 < offset (unix_of t) < 86400 ->
+  offset (unix_of t) mod 60 = 0 ->
+  datetime_from_string offset' e (iso offset t) = Some (t - t mod 1000).
+Proof. exact iso_roundtrip. Qed.
+Print Assumptions c13_iso_roundtrip_partial.
+
+(* refuted without that hypothesis: offset -3:06:28 (America/Sao_Paulo before 1914), 1800-05-06T07:08:09.123456 local:
+   the re-read instant is 28 s early (KNOWN_FINDINGS: iso-datetime-roundtrip:zone-offset-seconds-dropped) *)
+Theorem c13_iso_roundtrip_refuted : exists (offset : Z -> Z) (e : env) (t : Z),
+  in_year_range (f_year (fields_of offset t)) /\ -86400 < offset (unix_of t) < 86400
+  /\ datetime_from_string offset e (iso offset t) = Some (t - 28 * giga).
+Proof. exact (ex_intro _ lmt_zone (ex_intro _ _ (ex_intro _ lmt_instant iso_seconds_witness))). Qed.
+Print Assumptions c13_iso_roundtrip_refuted.
+
+(* environment formats (all 3 date formats x 4 time formats, am/pm markers "am"/"pm"), text level, full: Format(env)
+   of ANY instant in ANY zone is accepted by ToXDateTime in the same environment, and the fields read back are
+   exactly the rendered ones - year, month, day, hour, minute, and the second when the format has it - combined by
+   time.Date in the environment's zone *)
+Theorem c13_envformat_roundtrip : forall (offset : Z -> Z) (e : env) (t : Z),
+  std_markers e -> in_year_range (f_year (fields_of offset t)) ->
+  let f := fields_of offset t in
+  datetime_from_string offset e (format_datetime offset e t)
+  = Some (from_wall offset (wall_of (f_year f) (f_month f) (f_day f) (f_hour f) (f_min f) (secs_of (e_tf e) (f_sec f)))
+          * giga).
+Proof. exact format_datetime_roundtrip. Qed.
+Print Assumptions c13_envformat_roundtrip.
+
+(* partial: same wall-clock fields at the rendered precision, provided time.Date resolves the rendered local time to
+   an instant that reads it (missing: rendered times that fall into a gap of the zone, and other am/pm markers) *)
+Theorem c13_envformat_fields_partial : forall (offset : Z -> Z) (e : env) (t : Z),
+  std_markers e -> in_year_range (f_year (fields_of offset t)) ->
+  let f := fields_of offset t in
+  resolves offset (wall_of (f_year f) (f_month f) (f_day f) (f_hour f) (f_min f) (secs_of (e_tf e) (f_sec f))) ->
+  exists t', datetime_from_string offset e (format_datetime offset e t) = Some t'
+             /\ fields_of offset t' = trunc_fields (e_tf e) f.
+Proof. exact format_datetime_fields. Qed.
+Print Assumptions c13_envformat_fields_partial.
+
+(* the resolution hypothesis holds for every fixed-offset zone, and whenever the zone has one offset around the time *)
+Theorem c13_resolves_when_stable : forall (offset : Z -> Z) (w c : Z),
+  offset w = c -> offset (w - c) = c -> resolves offset w.
+Proof. exact resolves_stable. Qed.
+Print Assumptions c13_resolves_when_stable.
+
+(* refuted without it: Africa/Monrovia, 1972-01-07 00:44:35 (the zone jumped from 23:59:59 -0:44:30 to 00:44:30 UTC):
+   "01-07-1972 12:44 am" reads back as 1972-01-06 23:59:30 (KNOWN_FINDINGS: ...:rendered-time-starts-in-zone-gap) *)
+Theorem c13_envformat_fields_refuted : exists (offset : Z -> Z) (e : env) (t : Z),
+  std_markers e /\ in_year_range (f_year (fields_of offset t))
+  /\ fields_of offset t = Fields 1972 1 7 0 44 35 0
+  /\ exists t', datetime_from_string offset e (format_datetime offset e t) = Some t'
+                /\ fields_of offset t' = Fields 1972 1 6 23 59 30 0.
+Proof. exact (ex_intro _ monrovia (ex_intro _ monrovia_env (ex_intro _ monrovia_instant gap_witness))). Qed.
+Print Assumptions c13_envformat_fields_refuted.
+
+(* refuted for other am/pm markers: Arabic locale, 17:08 is written "5:08 <U+0645>" and read back as 05:08
+   (KNOWN_FINDINGS: ...:localized-ampm-marker-not-recognised) *)
+Theorem c13_envformat_localized_refuted :
+  fields_of (fun _ => 0) (1588784889 * giga) = Fields 2020 5 6 17 8 9 0
+  /\ exists t', datetime_from_string (fun _ => 0) ara_env (format_datetime (fun _ => 0) ara_env (1588784889 * giga)) = Some t'
+                /\ fields_of (fun _ => 0) t' = Fields 2020 5 6 5 8 0 0.
+Proof. exact localized_witness. Qed.
+Print Assumptions c13_envformat_localized_refuted.
+
+(* dates: Render (YYYY-MM-DD, whatever the environment) and Format(env) both read back as the same date *)
+Theorem c13_date_roundtrip : forall (e : env) (y m d : Z), valid_date y m d = true -> in_year_range y ->
+  date_from_string e (render_date (y, m, d)) = Some (y, m, d)
+  /\ date_from_string e (format_date e (y, m, d)) = Some (y, m, d).
+Proof. exact (fun e y m d V Hy => conj (date_from_string_render e y m d V Hy) (date_from_string_format e y m d V Hy)). Qed.
+Print Assumptions c13_date_roundtrip.
+
+(* times of day: Render (tt:mm:ss.ffffff) reads back truncated to microseconds, Format(env) to its minute or second *)
+Theorem c13_time_roundtrip : forall (e : env) (h mi s ns : Z), valid_clock h mi s -> 0 <= ns < giga ->
+  time_from_string (render_time (Tod h mi s ns)) = Some (Tod h mi s (ns / 1000 * 1000))
+  /\ (std_markers e -> time_from_string (format_time e (Tod h mi s ns)) = Some (Tod h mi (secs_of (e_tf e) s) 0)).
+Proof.
+  exact (fun e h mi s ns Vc Hns => conj (render_time_roundtrip h mi s ns Vc Hns)
+                                        (fun Hm => format_time_roundtrip e h mi s ns Hm Vc)).
+Qed.
+Print Assumptions c13_time_roundtrip.
